@@ -6,6 +6,7 @@ import SF.Lemmas.Rsi
 import SF.Lemmas.Hln
 import SF.Lemmas.Lagf
 import SF.Lemmas.LagRsi
+import SF.Lemmas.Flex
 import SF.Expr
 /-
   C18 — Bounded memory: state size does not grow with stream length.
@@ -58,6 +59,12 @@ theorem laguerre_bounded (g : α) : Core.SizeBounded (lagfCore (α := α) g) 9 :
 
 section transc
 variable [Transc α]
+/-- TrendFlex / ReFlex keep at most N filter values (N ≥ 3) -/
+theorem trendFlex_bounded (N : Nat) (hN : 3 ≤ N) : Core.SizeBounded (tflexCore (α := α) N) N :=
+  fun xs s h => Flex.size_le N hN xs s h
+theorem reFlex_bounded (N : Nat) (hN : 3 ≤ N) : Core.SizeBounded (rflexCore (α := α) N) N :=
+  fun xs s h => ReFlex.size_le N hN xs s h
+
 theorem welford_bounded (N : Nat) (hN : 0 < N) : Core.SizeBounded (welfordCoreU (α := α) N) N :=
   fun xs s h => Welford.size_le N hN xs s h
 
